@@ -491,6 +491,17 @@ func sigDefects(prefix string, kinds []string, n need, who func(u *updPlan, rng 
 			u.sigs[u.sigIndex(c)].DigestOver = der
 			return true
 		}},
+		{name: "lifted-" + prefix, kinds: kinds, need: n, apply: func(e *env, rng *rand.Rand, u *updPlan) bool {
+			c := who(u, rng)
+			if c == nil || u.sigIndex(c) < 0 {
+				return false
+			}
+			// the signature value of that certificate from another payload which
+			// this process has verified before (run does that), under signed
+			// attributes that were repointed to this payload
+			u.sigs[u.sigIndex(c)].Lift = true
+			return true
+		}},
 	}
 }
 
@@ -860,6 +871,9 @@ func describeSigs(sigs []gen.SigSpec) []string {
 		if s.Tamper != gen.TamperNone {
 			x += " tamper=" + string(s.Tamper)
 		}
+		if s.Lift {
+			x += " signature-lifted-from-verified-TRC"
+		}
 		if s.DigestOver != nil {
 			x += " digest-over-other-payload"
 		}
@@ -906,6 +920,13 @@ func (u *updPlan) run(r *mon.Run) {
 		u.unjudged = "defect-within-statement"
 	}
 
+	anyLift := false
+	for _, s := range u.sigs {
+		anyLift = anyLift || s.Lift
+	}
+	if anyLift {
+		u.warmUpLift(r)
+	}
 	infos := make([]protocol.SignerInfo, 0, len(u.sigs))
 	for _, s := range u.sigs {
 		si, err := gen.SignerInfo(succDER, s)
@@ -1020,6 +1041,61 @@ func (u *updPlan) run(r *mon.Run) {
 		w := wit()
 		w.PredDER, w.SignedDER = "", ""
 		r.Sample(w)
+	}
+}
+
+// warmUpLift builds the same TRC with another description, genuinely signed
+// by the planned signers, lets the implementation verify it (as a verifier
+// that has seen an earlier, genuine TRC would have), and keeps the signature
+// values of the signers planned as lifted.
+func (u *updPlan) warmUpLift(r *mon.Run) {
+	other := u.succ.p.Clone()
+	other.Description += " (other)"
+	oder, err := other.DER()
+	if err != nil {
+		panic(fmt.Sprintf("harness: encoding warm-up payload: %v", err))
+	}
+	var infos []protocol.SignerInfo
+	for i, s := range u.sigs {
+		s2 := s
+		s2.Lift, s2.LiftSig = false, nil
+		si, err := gen.SignerInfo(oder, s2)
+		if err != nil {
+			panic(fmt.Sprintf("harness: signing warm-up: %v", err))
+		}
+		infos = append(infos, si)
+		if s.Lift {
+			u.sigs[i].LiftSig = si.Signature
+		}
+	}
+	signed, err := gen.SignedData(oder, infos)
+	if err != nil {
+		panic(fmt.Sprintf("harness: %v", err))
+	}
+	var pred *cppki.TRC
+	if u.pred != nil && u.kind != "base" && !u.passNil {
+		if pd, err := u.pred.p.DER(); err == nil {
+			if d, derr := cppki.DecodeTRC(pd); derr == nil {
+				pred = &d
+			}
+		}
+	}
+	var verr error
+	pv, _ := mon.Try(func() {
+		dec, derr := cppki.DecodeSignedTRC(signed)
+		if derr != nil {
+			verr = derr
+			return
+		}
+		verr = dec.Verify(pred)
+	})
+	switch {
+	case pv != nil:
+		r.Event("lift_warmup_panicked")
+	case verr == nil:
+		r.Event("lift_warmup_accepted")
+	default:
+		r.Event("lift_warmup_rejected")
 	}
 }
 
@@ -1199,7 +1275,7 @@ func checkC32(r *mon.Run) {
 		tally.Unlock()
 		r.Extra("outcomes_by_plan", out)
 	}
-	r.Require(int64(nScen)*100, 80, "verify_decode", "verify_struct", "accepted", "rejected")
+	r.Require(int64(nScen)*100, 80, "verify_decode", "verify_struct", "accepted", "rejected", "lift_warmup_accepted")
 	r.RequireClasses("regular/duplicate-votes/rejected", "sensitive/duplicate-votes/rejected",
 		"regular/missing-new-voter-signature/rejected", "regular/missing-root-acknowledgement/rejected",
 		"regular/replaced-regular-voter-did-not-vote/rejected", "regular/regular-voters-with-quorum-up/rejected",
